@@ -36,6 +36,7 @@ fn after(g: &mut Grid, case: &str, d0: usize, undropped_inner: usize, allow_half
 fn iter_case<E: Elem>(g: &mut Grid, which: &str, regime: Regime, n_actual: usize, claims: &[usize], panic_at: usize) -> usize {
     let case = format!("{} elem={} regime={:?} actual={} reported={:?} panic_at_callback={}", which, E::NAME, regime, n_actual, claims, panic_at);
     vrt::begin_execution();
+    g.begin(&case);
     let calls = std::rc::Rc::new(std::cell::Cell::new(0usize));
     let (hid, ids, it) = cap(|| {
         let items: Vec<E> = arena::suspend(Vec::new);
